@@ -82,6 +82,21 @@ def _decimal_digits(x: Union[int, float], p: int) -> Tuple[str, int]:
     return str(n), e
 
 
+class _ThrowSignal(Exception):
+    """A script exception unwinding through a native (Python) frame.
+
+    When code run by a built-in (array callback, accessor, conversion,
+    call/apply) throws and the handler belongs to a frame *below* that
+    built-in, the Python frames of the built-in have to be unwound too: the
+    throw travels as this exception up to the interpreter loop that owns
+    the handler frame.
+    """
+
+    def __init__(self, value: JSValue):
+        super().__init__("script exception")
+        self.value = value
+
+
 @dataclass
 class ClosureCell:
     """A cell for closure variable - allows sharing between scopes."""
@@ -160,7 +175,10 @@ class VM:
 
         # Exception handling
         self.exception: Optional[JSValue] = None
-        self.exception_handlers: List[Tuple[int, int]] = []  # (frame_idx, catch_ip)
+        # (frame_idx, catch_ip, operand stack depth at TRY_START)
+        self.exception_handlers: List[Tuple[int, int, int]] = []
+        # call-stack depths at which a built-in entered script code
+        self._native_barriers: List[int] = []
 
     def run(self, compiled: CompiledFunction) -> JSValue:
         """Run compiled bytecode and return result."""
@@ -204,69 +222,80 @@ class VM:
             self._check_limits()
 
             frame = self.call_stack[-1]
-            func = frame.func
-            bytecode = func.bytecode
 
-            if frame.ip >= len(bytecode):
+            if frame.ip >= len(frame.func.bytecode):
                 # End of function
                 return self.stack.pop() if self.stack else UNDEFINED
 
-            op = OpCode(bytecode[frame.ip])
-            frame.ip += 1
-
-            # Get argument if needed
-            arg = None
-            if op in (
-                OpCode.JUMP,
-                OpCode.JUMP_IF_FALSE,
-                OpCode.JUMP_IF_TRUE,
-                OpCode.TRY_START,
-            ):
-                # 16-bit little-endian argument for jumps
-                low = bytecode[frame.ip]
-                high = bytecode[frame.ip + 1]
-                arg = low | (high << 8)
-                frame.ip += 2
-            elif op in (
-                OpCode.LOAD_CONST,
-                OpCode.LOAD_NAME,
-                OpCode.STORE_NAME,
-                OpCode.LOAD_LOCAL,
-                OpCode.STORE_LOCAL,
-                OpCode.LOAD_CLOSURE,
-                OpCode.STORE_CLOSURE,
-                OpCode.LOAD_CELL,
-                OpCode.STORE_CELL,
-                OpCode.CALL,
-                OpCode.CALL_METHOD,
-                OpCode.NEW,
-                OpCode.BUILD_ARRAY,
-                OpCode.BUILD_OBJECT,
-                OpCode.BUILD_REGEX,
-                OpCode.MAKE_CLOSURE,
-                OpCode.TYPEOF_NAME,
-            ):
-                arg = bytecode[frame.ip]
-                frame.ip += 1
-
-            # Execute opcode - wrap in try/except to catch Python JS exceptions
-            try:
-                self._execute_opcode(op, arg, frame)
-            except JSTypeError as e:
-                # Convert Python JSTypeError to JavaScript TypeError
-                self._handle_python_exception("TypeError", str(e))
-            except JSReferenceError as e:
-                # Convert Python JSReferenceError to JavaScript ReferenceError
-                self._handle_python_exception("ReferenceError", str(e))
-            except JSRangeError as e:
-                # Convert Python JSRangeError to JavaScript RangeError
-                self._handle_python_exception("RangeError", str(e))
+            self._step(frame)
 
             # Check if frame was popped (return)
             if not self.call_stack:
                 break
 
         return self.stack.pop() if self.stack else UNDEFINED
+
+    def _step(self, frame: CallFrame) -> None:
+        """Decode and execute one instruction of the given (top) frame.
+
+        Shared by the main loop and by _call_callback, so that code run by
+        built-ins (callbacks, accessors, conversions) is decoded and has its
+        errors converted exactly like top-level code.
+        """
+        bytecode = frame.func.bytecode
+        op = OpCode(bytecode[frame.ip])
+        frame.ip += 1
+
+        # Get argument if needed
+        arg = None
+        if op in (
+            OpCode.JUMP,
+            OpCode.JUMP_IF_FALSE,
+            OpCode.JUMP_IF_TRUE,
+            OpCode.TRY_START,
+        ):
+            # 16-bit little-endian argument for jumps
+            low = bytecode[frame.ip]
+            high = bytecode[frame.ip + 1]
+            arg = low | (high << 8)
+            frame.ip += 2
+        elif op in (
+            OpCode.LOAD_CONST,
+            OpCode.LOAD_NAME,
+            OpCode.STORE_NAME,
+            OpCode.LOAD_LOCAL,
+            OpCode.STORE_LOCAL,
+            OpCode.LOAD_CLOSURE,
+            OpCode.STORE_CLOSURE,
+            OpCode.LOAD_CELL,
+            OpCode.STORE_CELL,
+            OpCode.CALL,
+            OpCode.CALL_METHOD,
+            OpCode.NEW,
+            OpCode.BUILD_ARRAY,
+            OpCode.BUILD_OBJECT,
+            OpCode.BUILD_REGEX,
+            OpCode.MAKE_CLOSURE,
+            OpCode.TYPEOF_NAME,
+        ):
+            arg = bytecode[frame.ip]
+            frame.ip += 1
+
+        # Execute opcode - wrap in try/except to catch Python JS exceptions
+        try:
+            self._execute_opcode(op, arg, frame)
+        except JSTypeError as e:
+            # Convert Python JSTypeError to JavaScript TypeError
+            self._handle_python_exception("TypeError", str(e))
+        except JSReferenceError as e:
+            # Convert Python JSReferenceError to JavaScript ReferenceError
+            self._handle_python_exception("ReferenceError", str(e))
+        except JSRangeError as e:
+            # Convert Python JSRangeError to JavaScript RangeError
+            self._handle_python_exception("RangeError", str(e))
+        except _ThrowSignal as signal:
+            # A script exception crossed a native frame: dispatch it here
+            self._throw(signal.value)
 
     def _execute_opcode(self, op: OpCode, arg: Optional[int], frame: CallFrame) -> None:
         """Execute a single opcode."""
@@ -690,7 +719,7 @@ class VM:
 
         elif op == OpCode.RETURN:
             result = self.stack.pop() if self.stack else UNDEFINED
-            popped_frame = self.call_stack.pop()
+            popped_frame = self._pop_frame()
             # For constructor calls, return the new object unless result is an object
             if popped_frame.is_constructor_call:
                 if not isinstance(result, JSObject):
@@ -698,7 +727,7 @@ class VM:
             self.stack.append(result)
 
         elif op == OpCode.RETURN_UNDEFINED:
-            popped_frame = self.call_stack.pop()
+            popped_frame = self._pop_frame()
             # For constructor calls, return the new object
             if popped_frame.is_constructor_call:
                 self.stack.append(popped_frame.new_target)
@@ -719,7 +748,9 @@ class VM:
 
         elif op == OpCode.TRY_START:
             # arg is the catch handler offset
-            self.exception_handlers.append((len(self.call_stack) - 1, arg))
+            self.exception_handlers.append(
+                (len(self.call_stack) - 1, arg, len(self.stack))
+            )
 
         elif op == OpCode.TRY_END:
             if self.exception_handlers:
@@ -842,6 +873,20 @@ class VM:
 
         else:
             raise NotImplementedError(f"Opcode not implemented: {op.name}")
+
+    def _pop_frame(self) -> CallFrame:
+        """Leave the current function: nothing of it may stay behind.
+
+        A return out of for-in/for-of/switch/try leaves iterators,
+        discriminants and exception handlers of the frame; they are dropped
+        here so that the caller's pending operands are undisturbed.
+        """
+        frame = self.call_stack.pop()
+        del self.stack[frame.bp :]
+        depth = len(self.call_stack)
+        while self.exception_handlers and self.exception_handlers[-1][0] >= depth:
+            self.exception_handlers.pop()
+        return frame
 
     def _get_name(self, frame: CallFrame, index: int) -> str:
         """Get a name from the name table."""
@@ -1659,10 +1704,9 @@ class VM:
         if hasattr(func, "_original_func"):
             func = func._original_func
 
-        # Use existing invoke mechanism
-        self._invoke_js_function(func, args, this_val)
-        result = self._execute()
-        return result
+        # Run the callee to completion (and only the callee: the rest of
+        # the program continues in the interpreter loop that called us)
+        return self._call_callback(func, args, this_val)
 
     def _make_regexp_method(self, re: JSRegExp, method: str) -> Any:
         """Create a bound RegExp method."""
@@ -2388,61 +2432,35 @@ class VM:
             stack_len = len(self.stack)
             call_stack_len = len(self.call_stack)
 
-            # Invoke the function
-            self._invoke_js_function(
-                callback, args, this_val if this_val is not None else UNDEFINED
-            )
+            # Script exceptions whose handler is below this depth must unwind
+            # through the built-in that called us (see _ThrowSignal)
+            self._native_barriers.append(call_stack_len)
+            try:
+                # Invoke the function
+                self._invoke_js_function(
+                    callback, args, this_val if this_val is not None else UNDEFINED
+                )
 
-            # Execute until the call returns (back to original call stack depth)
-            while len(self.call_stack) > call_stack_len:
-                self._check_limits()
-                frame = self.call_stack[-1]
-                func = frame.func
-                bytecode = func.bytecode
+                # Execute until the call returns (back to original call stack depth)
+                while len(self.call_stack) > call_stack_len:
+                    self._check_limits()
+                    frame = self.call_stack[-1]
 
-                if frame.ip >= len(bytecode):
-                    self.call_stack.pop()
-                    if len(self.stack) > stack_len:
-                        return self.stack.pop()
-                    return UNDEFINED
+                    if frame.ip >= len(frame.func.bytecode):
+                        self._pop_frame()
+                        return UNDEFINED
 
-                op = OpCode(bytecode[frame.ip])
-                frame.ip += 1
-
-                # Get argument if needed
-                arg = None
-                if op in (
-                    OpCode.JUMP,
-                    OpCode.JUMP_IF_FALSE,
-                    OpCode.JUMP_IF_TRUE,
-                    OpCode.TRY_START,
-                ):
-                    low = bytecode[frame.ip]
-                    high = bytecode[frame.ip + 1]
-                    arg = low | (high << 8)
-                    frame.ip += 2
-                elif op in (
-                    OpCode.LOAD_CONST,
-                    OpCode.LOAD_NAME,
-                    OpCode.STORE_NAME,
-                    OpCode.LOAD_LOCAL,
-                    OpCode.STORE_LOCAL,
-                    OpCode.LOAD_CLOSURE,
-                    OpCode.STORE_CLOSURE,
-                    OpCode.LOAD_CELL,
-                    OpCode.STORE_CELL,
-                    OpCode.CALL,
-                    OpCode.CALL_METHOD,
-                    OpCode.NEW,
-                    OpCode.BUILD_ARRAY,
-                    OpCode.BUILD_OBJECT,
-                    OpCode.BUILD_REGEX,
-                    OpCode.MAKE_CLOSURE,
-                ):
-                    arg = bytecode[frame.ip]
-                    frame.ip += 1
-
-                self._execute_opcode(op, arg, frame)
+                    self._step(frame)
+            finally:
+                self._native_barriers.pop()
+                if len(self.call_stack) > call_stack_len:
+                    # Leaving by an exception: drop the frames of this call
+                    del self.call_stack[call_stack_len:]
+                    while (
+                        self.exception_handlers
+                        and self.exception_handlers[-1][0] >= call_stack_len
+                    ):
+                        self.exception_handlers.pop()
 
             # Get result from stack
             if len(self.stack) > stack_len:
@@ -2576,7 +2594,14 @@ class VM:
                 exc.set("columnNumber", column)
 
         if self.exception_handlers:
-            frame_idx, catch_ip = self.exception_handlers.pop()
+            frame_idx, catch_ip, stack_depth = self.exception_handlers[-1]
+
+            # The handler frame lies below a built-in that is running this
+            # code: unwind the built-in's Python frames first.
+            if self._native_barriers and frame_idx < self._native_barriers[-1]:
+                raise _ThrowSignal(exc)
+
+            self.exception_handlers.pop()
 
             # Unwind call stack
             while len(self.call_stack) > frame_idx + 1:
@@ -2586,7 +2611,9 @@ class VM:
             frame = self.call_stack[-1]
             frame.ip = catch_ip
 
-            # Push exception value
+            # Drop operands that were pending inside the try block, then
+            # push exception value
+            del self.stack[stack_depth:]
             self.stack.append(exc)
         else:
             # Uncaught exception
